@@ -353,6 +353,10 @@ def case_worker(item: Tuple[str, Any, str]) -> Dict[str, Any]:
 def replay_record(rec: Dict[str, Any]) -> Tuple[bool, str]:
     from ..rulekit import skel_unjson
 
+    if rec.get("kind") == "sequence":
+        from . import sequences
+
+        return sequences.replay_record(rec)
     sk = skel_unjson(rec["skeleton"])
     pay = {int(k): v for k, v in rec["payloads"].items()}
     info: Dict[str, Any] = {}
@@ -399,5 +403,8 @@ def run(prop: str, tier: str) -> int:
     SEARCH_MAX["n"] = 9 if tier == "quick" else 15
     rep.bounds["search_max_nodes"] = SEARCH_MAX["n"]
     collect(rep, pmap(case_worker, items, budget_s=budget, chunk=6))
+    from . import sequences
+
+    sequences.cross(rep, tier, prop)
     rep.extra["skeletons"] = len(sks)
     return rep.finish(required_reach=[name for name, _ in RULES])
